@@ -33,6 +33,7 @@ def actOf? (j : Json) : Option Act := do
   | [.str "wake"] => some .wake
   | [.str "respond"] => some .respond
   | [.str "failReq", k] => some (.failReq (← jStr? k >>= reqFailOf?))
+  | [.str "retry"] => some .retry
   | [.str "deliver"] => some .deliver
   | [.str "bookmark", b] => some (.bookmark (← jNat? b))
   | [.str "drop", d] => some (.drop (← jStr? d >>= dropOf?))
@@ -52,6 +53,8 @@ def outJ : Out → Json
   | .bookmark rv => .arr #[.str "bookmark", .num (rv : Int)]
   | .reqList => .arr #[.str "reqList"]
   | .reqWatch v => .arr #[.str "reqWatch", .num (v : Int)]
+  | .retryList => .arr #[.str "retryList"]
+  | .retryWatch v => .arr #[.str "retryWatch", .num (v : Int)]
   | .raised k => .arr #[.str "raised", .str (raiseStr k)]
 
 def phaseStr : Phase → String
